@@ -305,3 +305,46 @@ Proof.
   evar_last; first by apply: is_derive_scal; exact HF.
   lra.
 Qed.
+
+(* ---------------- the log-normal filter's sensitivities are the derivatives ---------------- *)
+(* the log-normal cell is the Gaussian cell of the logarithms minus the sum of the log measurements *)
+Lemma LNF_as_GF xs ys :
+  LNF_cell xs ys = GF_cell (map ln xs) (map ln ys) - Rsum (map ln ys).
+Proof.
+  rewrite /LNF_cell /GF_cell. set lx := map ln xs.
+  elim: ys => [|y l IH]; cbn [map Rsum]; first by field.
+  lra.
+Qed.
+
+Theorem LN_grad pre post x ys :
+  let xs := pre ++ x :: post in
+  0 < x -> 1 < nR xs -> 0 < var (map ln xs) ->
+  is_derive (fun t => LNF_cell (pre ++ t :: post) ys) x (LNF_grad xs ys x).
+Proof.
+  move=> xs Hx H1 Hv.
+  have Hne : map ln xs <> [] by rewrite /xs map_app; case: (map ln pre).
+  have E0 : mean (map (fun l => l - mean (map ln xs)) (map ln xs)) = 0.
+  { rewrite /mean centered_sum_zero //. rewrite /Rdiv. ring. }
+  have EG : LNF_grad xs ys x = GF_grad (map ln xs) (map ln ys) (ln x) * / x.
+  { rewrite /LNF_grad /GF_grad E0 /nR !map_length -/(nR xs).
+    have -> : Rsum (map (fun y => (ln y - mean (map ln xs)) / var (map ln xs)) ys)
+              = Rsum (map (fun y => (y - mean (map ln xs)) / var (map ln xs)) (map ln ys)) by rewrite map_map.
+    have -> : Rsum (map (fun y => (ln y - mean (map ln xs))^2 / (var (map ln xs))^2 - / var (map ln xs)) ys)
+              = Rsum (map (fun y => - / var (map ln xs) + (y - mean (map ln xs))^2 / (var (map ln xs))^2) (map ln ys)).
+    { rewrite map_map. f_equal. apply map_ext => y. ring. }
+    field. repeat split; apply Rgt_not_eq; lra. }
+  rewrite EG.
+  apply is_derive_ext with
+    (fun t => GF_cell (map ln pre ++ ln t :: map ln post) (map ln ys) - Rsum (map ln ys)).
+  { move=> t. by rewrite LNF_as_GF map_app. }
+  evar_last.
+  - apply: is_derive_minus; last by apply: is_derive_const.
+    apply: (is_derive_comp (fun u => GF_cell (map ln pre ++ u :: map ln post) (map ln ys)) ln x).
+    + have := G_grad (map ln pre) (map ln post) (ln x) (map ln ys).
+      rewrite /xs map_app in Hv. rewrite /= in Hv.
+      apply; last by exact Hv.
+      have -> : nR (map ln pre ++ ln x :: map ln post) = nR xs by rewrite /nR /xs !app_length /= !map_length.
+      exact H1.
+    + apply is_derive_ln. exact Hx.
+  - rewrite /minus /plus /opp /zero /scal /= /mult /=. rewrite /xs map_app /=. ring.
+Qed.
